@@ -84,6 +84,9 @@ type c17aSB struct {
 	lastRoute    string
 	esVersion    string
 	nreq         int
+	bin          string   // the worker's binary ("" = this one; the suite alivepar also runs a -race build)
+	extra        []string // further arguments of the worker (c17_alive_worker.go)
+	env          []string
 }
 
 // the last bytes a process wrote to stderr
@@ -120,14 +123,18 @@ func c17aFreePort() string {
 	return fmt.Sprint(l.Addr().(*net.TCPAddr).Port)
 }
 
-func c17aNewSB() (*c17aSB, error) {
+func c17aNewSB() (*c17aSB, error) { return c17aNewSBWith("", nil, nil, true) }
+
+// c17aNewSBWith: a server of its own; boot = with the data set of suite alive (else empty: suites alivefx / alivepar
+// create what a line needs)
+func c17aNewSBWith(bin string, extra, env []string, boot bool) (*c17aSB, error) {
 	root, err := os.MkdirTemp("/tmp", "c17a-")
 	if err != nil {
 		return nil, err
 	}
-	s := &c17aSB{root: root, inst: filepath.Join(root, "inst"), ids: map[string]string{}, esVersion: "7.9.3"}
+	s := &c17aSB{root: root, inst: filepath.Join(root, "inst"), ids: map[string]string{}, esVersion: "7.9.3", bin: bin, extra: extra, env: env}
 	c17aAllMu.Lock()
-	if len(c17aAll)%4 == 3 { // one server in four registers the 6.x ingest routes (…/{docType}/{_id})
+	if boot && len(c17aAll)%4 == 3 { // one server in four registers the 6.x ingest routes (…/{docType}/{_id})
 		s.esVersion = "6.8.20"
 	}
 	c17aAllMu.Unlock()
@@ -147,6 +154,9 @@ func c17aNewSB() (*c17aSB, error) {
 			return nil, err
 		}
 	}
+	if !boot {
+		return s, nil
+	}
 	if err := s.bootstrap(); err != nil {
 		s.kill()
 		return nil, err
@@ -159,9 +169,12 @@ func (s *c17aSB) start() error {
 	if err != nil {
 		return err
 	}
-	cmd := exec.Command(self, "c17aworker", s.root, s.iport, s.qport, s.esVersion)
+	if s.bin != "" {
+		self = s.bin
+	}
+	cmd := exec.Command(self, append([]string{"c17aworker", s.root, s.iport, s.qport, s.esVersion}, s.extra...)...)
 	cmd.Dir = s.inst
-	cmd.Env = append(os.Environ(), "GOMAXPROCS=4")
+	cmd.Env = append(append(os.Environ(), "GOMAXPROCS=4"), s.env...)
 	in, err := cmd.StdinPipe()
 	if err != nil {
 		return err
@@ -267,13 +280,11 @@ var c17aSlots []*c17aSlot
 var c17aSlotsOnce sync.Once
 var c17aRR int64
 
-func c17aAcquire(ticket int) *c17aSlot {
-	c17aSlotsOnce.Do(func() {
-		for i := 0; i < c17aWorkers; i++ {
-			sl := &c17aSlot{}
-			sl.cond = sync.NewCond(&sl.mu)
-			c17aSlots = append(c17aSlots, sl)
-		}
+var c17aExitHookOnce sync.Once
+
+// every server this process started is killed and its sandbox removed when the run ends
+func c17aInstallExitHook() {
+	c17aExitHookOnce.Do(func() {
 		exitHooks = append(exitHooks, func() {
 			c17aAllMu.Lock()
 			defer c17aAllMu.Unlock()
@@ -284,6 +295,17 @@ func c17aAcquire(ticket int) *c17aSlot {
 				}
 			}
 		})
+	})
+}
+
+func c17aAcquire(ticket int) *c17aSlot {
+	c17aSlotsOnce.Do(func() {
+		for i := 0; i < c17aWorkers; i++ {
+			sl := &c17aSlot{}
+			sl.cond = sync.NewCond(&sl.mu)
+			c17aSlots = append(c17aSlots, sl)
+		}
+		c17aInstallExitHook()
 	})
 	n := len(c17aSlots)
 	if ticket < 0 {
